@@ -11,7 +11,9 @@ from common import REPO, fresh_modules, quiet
 WORDS = ["Stop", "Open", "Play", "Pause", "Idle", "Run", "Load", "Eject", "Seek", "Wait", "Init", "Done", "Red",
          "Green", "Orange", "Up", "Down", "Left", "Right", "Ready", "Busy", "Error", "Reset", "Start", "End",
          "Alpha", "Beta", "Gamma", "Delta", "Next", "Prev", "Track", "Disc", "Drive", "Door", "Timer", "Tick",
-         "Test", "Foo", "Bar", "Baz", "Qux", "Zed", "Controller", "Machine"]
+         "Test", "Foo", "Bar", "Baz", "Qux", "Zed", "Controller", "Machine",
+         # words the generators give a meaning to when they stand alone: as part of a name they are just letters
+         "None", "none", "Null", "True"]
 
 BACKENDS = ["cpp", "cs", "py"]
 PRIM = {
@@ -29,6 +31,25 @@ def camel(r, n=None):
 
 
 _EATEN = None
+_EATEN_END = None
+
+
+def eaten_at_end():
+    """identifier characters the current CleanUpLine removes when they end a tag name (none on the pinned tree)"""
+    global _EATEN_END
+    if _EATEN_END is None:
+        _EATEN_END = []
+        try:
+            import importlib
+            preservative = importlib.import_module("kojen.preservative")
+            base = preservative.CleanUpLine("{{{USER_QQ}}}")
+            for c in string.ascii_letters + string.digits + "_":
+                for probe, want in (("{{{USER_QQ" + c + "}}}", base.replace("QQ", "QQ" + c)), ("{{{USER_" + c + "QQ}}}", base.replace("QQ", c + "QQ"))):
+                    if preservative.CleanUpLine(probe) != want and c not in _EATEN_END:
+                        _EATEN_END.append(c)
+        except Exception:
+            _EATEN_END = []
+    return _EATEN_END
 
 
 def eaten_chars():
@@ -53,6 +74,10 @@ def eaten_chars():
 def near_miss(r, w):
     """a name one edit away from w (insert / delete / substitute one character after the first)"""
     pool = eaten_chars() * 8 + list("tnseTNSE_01")
+    ends = eaten_at_end()
+    if ends and r.random() < 0.6:
+        # names that differ only in what the normalisation strips from the end of a tag name
+        return w + "".join(r.choice(ends) for _ in range(r.randint(1, 2))) if r.random() < 0.7 or len(w) < 3 else w.rstrip("".join(ends)) or w
     i = r.randrange(1, len(w) + 1)
     k = r.randrange(3)
     if k == 0 or len(w) < 3:
